@@ -122,6 +122,35 @@ fn data_byte(i: usize) -> u8 {
     (i as u8).wrapping_mul(3).wrapping_add(17)
 }
 
+/// One large transfer into a `Vec` sink next to `Write::write` / `write_all` on a std `Vec`: counts and
+/// contents must agree for buffers around 64 KiB and 1 MiB too (the histories below use small buffers).
+fn big_vec_twin() {
+    let c = cx();
+    let len = [65535usize, 65536, 65537, 200_000, 1 << 20, (1 << 20) + 1, (1 << 20) + 4097][c.a(7) as usize];
+    let exact = c.a(2) == 0;
+    c.count("probe.twin_transfer_of_64_kib_or_more_into_a_vec");
+    let mut mem: Vec<u8> = (0..len).map(|i| data_byte(i) ^ (i >> 9) as u8).collect();
+    let copy = mem.clone();
+    let mut vvec: Vec<u8> = vec![1, 2, 3];
+    let mut svec: Vec<u8> = vec![1, 2, 3];
+    cx().mode = Mode::Actor;
+    cx().op_begin(9999);
+    // SAFETY: `mem` is alive and not otherwise used during the call.
+    let v = unsafe { VolatileSlice::new(mem.as_mut_ptr(), len) };
+    let (vr, sr) = if exact { (vres_u(catch(|| vvec.write_all_volatile(&v))), sres_u(svec.write_all(&copy))) } else { (vres_n(catch(|| vvec.write_volatile(&v))), sres_n(svec.write(&copy))) };
+    cx().op_end(9999, 0);
+    cx().mode = Mode::Setup;
+    let what = if exact { "write_all_volatile" } else { "write_volatile" };
+    if vr != sr {
+        cx().violate("C13", "C13/twin", "result Vec<u8> (write)".into(), format!("Vec.{}(buf[{}]) returned {:?}; std's Vec returns {:?}", what, len, vr, sr));
+    } else if vvec != svec {
+        let k = vvec.iter().zip(svec.iter()).position(|(a, b)| a != b).unwrap_or(vvec.len().min(svec.len()));
+        cx().violate("C13", "C13/twin", "stream state Vec<u8> (write)".into(), format!("Vec.{}(buf[{}]): the sink holds {} byte(s), std's holds {}; first difference at {}", what, len, vvec.len(), svec.len(), k));
+    } else if mem != copy {
+        cx().violate("C13", "C13/twin", "source changed Vec<u8> (write)".into(), format!("Vec.{}(buf[{}]) changed the volatile memory it was reading from", what, len));
+    }
+}
+
 impl Scenario for IoMem {
     fn name(&self) -> &'static str {
         "S-io/memory"
@@ -129,6 +158,9 @@ impl Scenario for IoMem {
 
     fn run(&self) -> RunInfo {
         cx().mode = Mode::Setup;
+        if cx().a(300) == 0 {
+            big_vec_twin();
+        }
         let kind = cx().a(6);
         let slen = match cx().a(5) {
             0 => 0,
